@@ -1,4 +1,5 @@
 import MsiProofs.Lemmas.SaveOpen
+import MsiProofs.Lemmas.DeleteValidation
 import MsiProofs.Props.C11
 /-
 The invariant that makes "save, then reopen" work over whole histories: whenever the
@@ -709,8 +710,11 @@ theorem good_dropTable (s : Pkg) (hsep : TablesSeparate s) (name : List Char) :
       cases u
       simp only
       have hsep1 := g1.sep hsep
-      have g2 := good_deleteRows s1 hsep1 Gen.nameValidation.toList (eqStr "Table" name)
-      generalize hr2 : deleteRows s1 Gen.nameValidation.toList (eqStr "Table" name) = r2 at g2
+      have g2 : Good s1 (deleteValidation s1 name).1 := by
+        rcases MsiProofs.DeleteValidation.deleteValidation_cases s1 name with e | e <;> rw [e]
+        · exact good_deleteRows s1 hsep1 Gen.nameValidation.toList (eqStr "Table" name)
+        · exact .refl s1
+      generalize hr2 : deleteValidation s1 name = r2 at g2
       obtain ⟨s2, res2⟩ := r2
       cases res2 with
       | err k => exact g1.trans g2
